@@ -180,7 +180,7 @@ func runBoundary(p *core.Prog) *core.Result {
 		if len(las) == 0 {
 			res.Bad(key, p.Pos(calls[0].Pos()), "recover handler converts an uncatchable payload (interrupt, stack overflow) into an error return but never calls leaveAbrupt(): queued promise jobs of the interrupted run survive and the interrupt flag stays set, so the next call returns the stale InterruptedError")
 		}
-		nFor := 0
+		nFor, nAbr := 0, 0
 		for _, la := range las {
 			cs, others := condSet(la.Block())
 			if cs[cForeign] > 0 && cs[cUncatchable] == 0 {
@@ -207,8 +207,13 @@ func runBoundary(p *core.Prog) *core.Result {
 			case cs[cStackEmpty] == 0 && cs[cNotRecursive] == 0:
 				res.Bad(key, p.Pos(la.Pos()), "leaveAbrupt() is not guarded by an empty call stack: a nested call would drop the outer run's jobs and clear an interrupt meant for it")
 			default:
+				nAbr++
 				res.OK(key, p.Pos(la.Pos()), "uncatchable branch reaches leaveAbrupt() guarded only by the empty call stack")
 			}
+		}
+		if nAbr == 0 && len(las) > 0 {
+			// leaveAbrupt() exists, but only on the foreign-panic path
+			res.Bad(key, p.Pos(calls[0].Pos()), "the branch that converts an uncatchable payload (interrupt, stack overflow) into an error return does not call leaveAbrupt() (only the foreign-panic branch does): queued promise jobs of the interrupted run survive and the interrupt flag stays set")
 		}
 		if nFor == 0 {
 			res.Bad(name+":foreign->leaveAbrupt", p.Pos(calls[0].Pos()), "a Go panic that is neither a JS exception nor an uncatchable error (a host callback that panicked) is re-panicked from the outermost boundary without leaveAbrupt(): vm.prg stays set (phantom frame in later stack traces) and the promise jobs queued by the aborted run execute during the next call")
